@@ -23,7 +23,7 @@ macro_rules! multi_vs_single {
         let act1 = !use_mask || m1;
         let n = $m.input_frames_next();
         check!(n == $s.input_frames_next(), "C11.counts_next[base]");
-        $nd.assume(n <= $MI);
+        $crate::fit!($nd, n <= $MI, "C11.demand_fits_scenario_bound[base]");
         let mut x0 = [0.0 as $T; $MI];
         let mut x1 = [0.0 as $T; $MI];
         multi_vs_single!(@fill $nd, $T, $MI, x0, x1, $data);
@@ -118,9 +118,9 @@ harnesses! {
     }
     #[kani::unwind(26)]
     fn c11_ffi_ch1_line(nd) {
-        let mk = |c| FastFixedIn::<f64>::new(1.0, 1.0, PolynomialDegree::Nearest, 12, c).unwrap();
+        let mk = |c| FastFixedIn::<f64>::new(1.0, 1.0, PolynomialDegree::Nearest, 10, c).unwrap();
         let (mut m, mut s) = (mk(2), mk(1));
-        multi_vs_single!(nd, m, s, 1, f64, 12, 22, line);
+        multi_vs_single!(nd, m, s, 1, f64, 10, 20, line);
         forget(m); forget(s);
     }
     #[kani::unwind(10)]
@@ -142,7 +142,7 @@ harnesses! {
     #[kani::stub(realfft::RealFftPlanner::<f64>::plan_fft_inverse, crate::stubs::plan_inv)]
     #[kani::stub(rubato::sinc::make_sincs, crate::stubs::make_sincs_unit)]
     fn c11_fto_ch1(nd) {
-        let mk = |c| FftFixedOut::<f64>::new(2, 3, 4, 1, c).unwrap();
+        let mk = |c| FftFixedOut::<f64>::new(2, 3, 4, 2, c).unwrap();
         let (mut m, mut s) = (mk(2), mk(1));
         multi_vs_single!(nd, m, s, 1, f64, 4, 4, line);
         forget(m); forget(s);
@@ -166,7 +166,7 @@ harnesses! {
         let mk = |c| SincFixedOut::<f64>::new_with_interpolator(1.0, 1.5, SincInterpolationType::Nearest, probe::boxed64(2, 1), 2, c).unwrap();
         let (mut m, mut s) = (mk(2), mk(1));
         let n = m.input_frames_next();
-        nd.assume(n <= 3);
+        crate::fit!(nd, n <= 3, "C11.demand_fits_scenario_bound[base]");
         let mut x0 = [0.0f64; 3];
         let mut x1 = [0.0f64; 3];
         crate::drive::fill_line(&mut x0[..], 0);
